@@ -41,37 +41,49 @@ def ext(kind, *alts):
 
 # ---------------------------------------------------------------------------------------------- rendering
 
-def render_set(node):
+def render_set(node, variant=0):
+    """variant 0 is the canonical spelling; other values choose equivalent spellings: `^` for negation, a first `]` and a
+    last `-` written bare."""
+    items = node[2]
     body = ''
-    for it in node[2]:
+    for i, it in enumerate(items):
         if it[0] == 'c':
             c = it[1]
-            body += '\\' + c if c in '\\]-[!^' else c
+            if variant & 2 and c == ']' and i == 0:
+                body += c
+            elif variant & 4 and c == '-' and i == len(items) - 1 and len(items) > 1 and items[i - 1][0] == 'c':
+                body += c
+            else:
+                body += '\\' + c if c in '\\]-[!^' else c
         elif it[0] == 'r':
             body += it[1] + '-' + it[2]
         else:
             body += '[:' + it[1] + ':]'
-    return '[' + ('!' if node[1] else '') + body + ']'
+    return '[' + (('^' if variant & 1 else '!') if node[1] else '') + body + ']'
 
 
-def render(seq, extmatch=True):
-    """Pattern text of a Seq. Without extmatch, Ext nodes must have been flattened (see flatten_ext)."""
+def render(seq, extmatch=True, variant=0):
+    """Pattern text of a Seq. Without extmatch, Ext nodes must have been flattened (see flatten_ext).
+    variant != 0 selects equivalent spellings (see render_set; bit 8: a literal dot written `\\.`)."""
     out = []
     for n in seq:
         k = n[0]
         if k == 'lit':
             c = n[1]
-            out.append('\\' + c if c in SPECIAL else c)
+            if c == '.' and variant & 8:
+                out.append('\\.')
+            else:
+                out.append('\\' + c if c in SPECIAL else c)
         elif k == 'any':
             out.append('?')
         elif k == 'star':
             out.append('*')
         elif k == 'set':
-            out.append(render_set(n))
+            out.append(render_set(n, variant))
         elif k == 'ext':
             if not extmatch:
                 raise ValueError('Ext node rendered without EXTMATCH')
-            out.append(n[1] + '(' + '|'.join(render(a, extmatch) for a in n[2]) + ')')
+            out.append(n[1] + '(' + '|'.join(render(a, extmatch, variant) for a in n[2]) + ')')
         else:
             raise ValueError(n)
     return ''.join(out)
@@ -183,7 +195,7 @@ def merge_stars(seq):
     return tuple(out)
 
 
-def render_path(pp, extmatch=True, loose=False, sep='/'):
+def render_path(pp, extmatch=True, loose=False, sep='/', variant=0):
     """sep='\\/' writes every separator between segments as an escaped slash (same meaning)."""
     segs = []
     for s in pp.segs:
@@ -194,7 +206,7 @@ def render_path(pp, extmatch=True, loose=False, sep='/'):
         elif loose and extmatch:
             segs.append(render_loose(s))
         else:
-            segs.append(render(s, extmatch) if extmatch else render_plain(s))
+            segs.append(render(s, extmatch, variant) if extmatch else render_plain(s))
     joiner = sep * pp.dup
     return ('/' if pp.absolute else '') + joiner.join(segs) + ('/' if pp.trail else '')
 
